@@ -2,6 +2,7 @@
 from contracts import spec_announce as SA
 from contracts import spec_config as SCFG
 from contracts import spec_sd as SS
+from contracts import c10 as C10
 
 FUNCTIONS = [
     "someip.sd.ServiceAnnouncer.handle_findservice",
@@ -18,5 +19,5 @@ ASSUMPTIONS = [
 ]
 BOUNDED = ["two service instances per announcer (ids, versions, options, readiness symbolic)"]
 EXPLANATION = "request ids/versions incl. every wildcard combination, channel, delay window, instance descriptions and readiness are symbolic; the number of instances is bounded in shape (bounded_stand_ins)"
-HARNESSES = [SCFG.ob_matches_find_refines, SCFG.ob_create_offer_entry_refines] + SA.FIND_OBLIGATIONS + [SS.ob_sd_message_dispatch]
+HARNESSES = [SCFG.ob_matches_find_refines, SCFG.ob_create_offer_entry_refines] + SA.FIND_OBLIGATIONS + [SS.ob_sd_message_dispatch, C10.ob_instance_start_stop, C10.ob_offer_task]
 EXPECT_COVERS = {"ob_handle_findservice": ["multicast", "unicast", "both", "nobody"], "ob_sd_message_dispatch": ["find"]}
